@@ -20,6 +20,7 @@ type Canon struct {
 	ids       map[uintptr]int
 	HiddenCap bool // also print slice elements between len and cap
 	MaxDepth  int
+	NoIdentity bool // render pointed-to values without identity numbers (equal values compare equal whatever they share)
 	NoTypes   bool // omit struct/slice type names (values of structurally equal but differently tagged types compare equal)
 }
 
@@ -106,6 +107,12 @@ func (c *Canon) Val(v reflect.Value, depth int) {
 				return
 			}
 			c.sb.WriteString("(*" + v.Type().Elem().String() + ")(nil)")
+			return
+		}
+		if c.NoIdentity {
+			// values only: which pointers share an object is not rendered (acyclic values only)
+			c.sb.WriteString("&")
+			c.Val(v.Elem(), depth+1)
 			return
 		}
 		p := v.Pointer()
